@@ -29,6 +29,9 @@ TEXTS = [
     "{1.0: 'a', 2.50: 'b'}",
     "{1: 'c', 2.5: 'd'}['1']",
     "x = {}\nx[7.0] = 1\nx[7] = 2\nkeys(x)",
+    "round(1.5, 'x')",
+    "round('1.5', 2)",
+    "1 / 3 + 2 / 3 * 3",
 ]
 
 
@@ -99,7 +102,7 @@ def _first(p, kind, ti):
         pass
 
 
-SECOND_QUICK = [(0, 1), (0, 3), (1, 13), (1, 14), (1, 10), (2, 9), (1, 1), (0, 13), (1, 15), (2, 3), (1, 18), (1, 20), (1, 21), (1, 19)]
+SECOND_QUICK = [(0, 1), (0, 3), (1, 13), (1, 14), (1, 10), (2, 9), (1, 1), (0, 13), (1, 15), (2, 3), (1, 18), (1, 20), (1, 21), (1, 19), (1, 24)]
 
 
 def hlib_reset():
@@ -112,13 +115,13 @@ def hlib_reset():
 
 def history_pair(kind: int, si: int) -> None:
     """
-    pre: 0 <= kind <= 4 and 0 <= si < 66
+    pre: 0 <= kind <= 4 and 0 <= si < 75
     post: True
     """
     hlib.enter(locals())
     t1 = hlib.PARAM["t1"]
     second = SECOND_QUICK if hlib.PARAM["quick"] else [(c, t) for c in range(3) for t in range(len(TEXTS))]
-    kind, si = hlib.concrete(kind, 0, 4), hlib.concrete(si, 0, 65)
+    kind, si = hlib.concrete(kind, 0, 4), hlib.concrete(si, 0, 74)
     hlib.assume(si < len(second))
     call2, t2 = second[si]
     c2 = ('parse', 'eval', 'list_names')[call2]
